@@ -43,6 +43,10 @@ def cases(tier, seed):
                     "no": (int(rng.integers(1, 9)) if j % 2 else int(rng.integers(4, 9))) if not big else int(rng.integers(9, 21)), "big_map": big,
                     "mode": ["default", "shared", "repeat"][j % 3],
                     "s": int(rng.integers(1 << 30)), "override": atomsgen.KNAMES[(j // 2) % 4] if j % 2 == 0 else None})
+    # a fragment term on three atoms of an existing four-atom term and on a fourth atom 16 or 32 places from its end atom
+    for j in range(40 if tier == "quick" else 4000):
+        out.append({"kind": "random", "ns": int(rng.integers(20, 48)), "no": int(rng.integers(4, 9)), "big_map": False, "mode": ["default", "shared", "repeat"][j % 3],
+                    "s": int(rng.integers(1 << 30)), "override": None, "near_override": True})
     # structures with more than 1e5 / 2e5 atoms: atom indices are large numbers (float tolerances, packed keys, narrow
     # integer types show only here); terms sit on the last atoms, next to the ones the fragment is attached to
     for j in range(6 if tier == "quick" else 60):
@@ -146,6 +150,37 @@ def _add_override(rng, a, o, idx_map):
         setattr(o, "extra_%s_fields" % kind, np.append(xf, [["ov%s" % kind[0]] * xf.shape[1]], axis=0))
         done.append((kind, "reversed" if rev else "forward"))
     return done
+
+
+def _add_near_override(rng, a, o):
+    """give `o` a four-atom term that lands on three atoms of an existing dihedral / improper of `a` and on a fourth atom whose
+    index differs from the existing term's end atom by 16 or 32 (not the same atoms: the existing term must survive)
+    -> identity map or None"""
+    no, ns = len(o), len(a)
+    for kind in (["dihedral", "improper"] if rng.integers(2) else ["improper", "dihedral"]):
+        arr = np.asarray(getattr(a, atomsgen.ARR[kind])).reshape(-1, 4)
+        otypes = getattr(o, "%s_types" % kind)
+        if len(arr) == 0 or len(otypes) == 0 or no < 4:
+            continue
+        for t in rng.permutation(len(arr)):
+            t = [int(x) for x in arr[int(t)]]
+            e = int(rng.choice([0, 3]))
+            cands = [t[e] + d for d in (16, -16, 32, -32) if 0 <= t[e] + d < ns and t[e] + d not in t]
+            if not cands:
+                continue
+            tgt = list(t)
+            tgt[e] = int(cands[int(rng.integers(len(cands)))])
+            src = [int(x) for x in rng.choice(no, size=4, replace=False)]
+            term = src if rng.integers(2) else src[::-1]
+            oarr = np.asarray(getattr(o, atomsgen.ARR[kind])).reshape(-1, 4)
+            if any(list(x) == term or list(x)[::-1] == term for x in oarr.tolist()):
+                continue
+            setattr(o, atomsgen.ARR[kind], np.append(oarr, [term], axis=0))
+            setattr(o, "%s_types" % kind, np.append(otypes, otypes[0]))
+            xf = getattr(o, "extra_%s_fields" % kind)
+            setattr(o, "extra_%s_fields" % kind, np.append(xf, [["nv%s" % kind[0]] * xf.shape[1]], axis=0))
+            return dict(zip(src, tgt))
+    return None
 
 
 def _check(real, pred, ctx, what, a, o, idx_map, st):
@@ -295,8 +330,13 @@ def run_case(case, ctx):
                 t = [int(i) for i in arr[int(rng.integers(len(arr)))]]
                 src = [int(x) for x in rng.choice(case["no"], size=len(t), replace=False)]
                 idx_map = dict(zip(src, t))
+        if case.get("near_override"):
+            m2 = _add_near_override(rng, a, o)
+            if m2 is not None:
+                idx_map = m2
+                st.count("fragment_terms_next_to_an_existing_term_with_an_end_atom_16_or_32_places_away")
         ov = []
-        if case.get("override") and idx_map:
+        if case.get("override") and idx_map and not case.get("near_override"):
             ov = _add_override(rng, a, o, idx_map)
             for kind, d in ov:
                 st.seen("override", "%s:%s" % (kind, d))
@@ -311,6 +351,8 @@ def requirements(stats, tier):
     need = []
     if stats.get("extensions_with_verbose_output") < (50 if tier == "quick" else 5000) or stats.get("extensions_with_positional_arguments") < (50 if tier == "quick" else 5000):
         need.append("call forms: %d extensions with verbose output, %d with positional arguments" % (stats.get("extensions_with_verbose_output"), stats.get("extensions_with_positional_arguments")))
+    if stats.get("fragment_terms_next_to_an_existing_term_with_an_end_atom_16_or_32_places_away") < (15 if tier == "quick" else 1500):
+        need.append("fragment terms beside an existing four-atom term (end atom 16 or 32 places away): %d" % stats.get("fragment_terms_next_to_an_existing_term_with_an_end_atom_16_or_32_places_away"))
     if stats.get("extensions_checked") < (1500 if tier == "quick" else 150000):
         need.append("too few extensions observed: %d" % stats.get("extensions_checked"))
     for m in ("default", "shared", "repeat"):
